@@ -24,3 +24,9 @@ def run(ctx):
     R.check_lookup(ctx, "C06.LOOKUP")
     R.check_eq(ctx, "C06.EQ")
     R.check_archive(ctx, "C06.ARCHIVE")
+
+    # ---------------------------------------------------------------- C06.ARGS
+    from ..rules_common import check_call_arguments
+    check_call_arguments(ctx, "C06.ARGS", "C06")
+
+
